@@ -168,3 +168,28 @@ def random_program(rng, n_globals=None, n_helpers=None, depth_bias=False, stages
     for k, st in enumerate(stages):
         p.entries.append(("e%d_%s" % (k, st[:2]), st, items(nh, rng.randint(0, 3))))
     return p
+
+
+def diamond_program(rng, target="global"):
+    """entry 1 (stage A) calls helpers a then b, both call c, which touches the target; entry 2 (stage B) reaches the
+    target only through b (or only through a). Exposes stale caches shared between entry points."""
+    p = Program()
+    p.globals = [("g0", rng.choice(list(RES)), 0, 0), ("g1", "uniform", 0, 1)]
+    if target == "pc":
+        p.push_constant = ("pc", rng.choice(["f32", "vec4<f32>", "US"]))
+    tgt = "pc" if target == "pc" else 0
+    forms = CALL_FORMS
+    # h0 = c (touches), h1 = a, h2 = b
+    p.helpers = [[("acc", tgt, rng.randrange(3), rng.choice(PLACEMENTS))],
+                 [("call", 0, rng.choice(forms), rng.choice(PLACEMENTS))],
+                 [("call", 0, rng.choice(forms), rng.choice(PLACEMENTS))]]
+    st = rng.sample(["vertex", "fragment", "compute"], 2)
+    first = [("call", 1, rng.choice(forms), "top"), ("call", 2, rng.choice(forms), rng.choice(PLACEMENTS))]
+    if rng.random() < 0.5:
+        first.reverse()
+    second = [("call", rng.choice([1, 2]), rng.choice(forms), rng.choice(PLACEMENTS))]
+    ents = [("e0_" + st[0][:2], st[0], first), ("e1_" + st[1][:2], st[1], second)]
+    if rng.random() < 0.3:
+        ents.append(("e2_" + st[0][:2], st[0], []))
+    p.entries = ents
+    return p
